@@ -212,7 +212,34 @@ def gen_pos_defs(rng, n, dynamic_kw):
         out.append(d)
     return out
 
-def run(tier, seed, work, repo):
+def check_ill_suspects(ill_suspects, root, repo):
+    """ill-formed definitions (by construction of the mutation) which the real macro front end expanded:
+    compile each with trivial hooks; the ones rustc accepts are concrete C13 failing inputs"""
+    accepted = []
+    tdir = os.path.join(root, 'target_illsus')
+    for k, (rule, d) in enumerate(ill_suspects):
+        if rule.startswith('R11'):
+            continue
+        try:
+            td = T.t3ify(d)
+            leaves = D._leaf_names([it for it in td if it[0] == 'states'][0][1])
+            info = {'name': [it for it in td if it[0] == 'name'][0][1],
+                    'concrete': any(it[0] == 'context' for it in td),
+                    'async': any(it[0] == 'async' and it[1] for it in td),
+                    'states': [{'name': leaves[0] if leaves else 'X'}]}
+            text = D.to_text(td)
+        except Exception:
+            continue
+        src = PRELUDE_STD + f'pub mod i{k} {{\nuse super::*;\nuse state_machines::state_machine;\nstate_machine! {{\n{text}\n}}\n'
+        src += hooks_impl(td, info) + '\n}\nfn main() {}\n'
+        cdir = os.path.join(root, f'illsus{k}')
+        write_crate(cdir, src, repo, False)
+        ok, errs, stderr = cargo_check(cdir, tdir)
+        if ok and not errs:
+            accepted.append({'rule': rule, 'dsl': text, 'phase': 'expanded by the macro and accepted by rustc'})
+    return accepted
+
+def run(tier, seed, work, repo, ill_suspects=None):
     cfg = TIERS[tier]
     rng = random.Random(seed * 104729 + 7)
     root = os.path.join(work, 't4')
@@ -351,6 +378,9 @@ def run(tier, seed, work, repo):
                 es = [e for e in errs if any(a <= l <= b for l in e['lines'])]
                 if not es:
                     res['illformed_accepted'].append({'rule': rule, 'dsl': text, 'phase': name})
+    if ill_suspects:
+        res['ill_suspects'] = len(ill_suspects)
+        res['illformed_accepted'] += check_ill_suspects(ill_suspects, root, repo)
     shutil.rmtree(root, ignore_errors=True)
     return res
 
